@@ -305,6 +305,13 @@ func RunQuery(r QueryRun) (o *Outcome) {
 	} else {
 		q, err = r.Eng.E.NewRangeQuery(r.Store, qopts, op.Q, ms(op.Start), ms(op.End), time.Duration(op.Step)*time.Millisecond)
 	}
+	if r.Sim != nil && op.Shards > 0 {
+		// The shard count is read when the plan is built. Execution under the scheduler runs one
+		// goroutine at a time anyway; a single P makes sync.Pool reuse (the engine's vector pools,
+		// anything a change adds) a function of the schedule instead of the thread a goroutine
+		// happens to land on.
+		runtime.GOMAXPROCS(1)
+	}
 	n1, f1 := r.Eng.counters()
 	o.DNative, o.DFallback = n1-n0, f1-f0
 	o.Fallback = o.DFallback > 0
